@@ -89,26 +89,47 @@ impl Complex {
         for (f, r) in faces.iter().enumerate() {
             assert!(area2(r) > 0, "face not ccw");
             let n = r.len() as f64;
-            wit.push((r.iter().map(|p| p.0 as f64).sum::<f64>() / n, r.iter().map(|p| p.1 as f64).sum::<f64>() / n));
+            wit.push((
+                r.iter().map(|p| p.0 as f64).sum::<f64>() / n,
+                r.iter().map(|p| p.1 as f64).sum::<f64>() / n,
+            ));
             let mut fe = vec![];
             for i in 0..r.len() {
                 let (u, v) = (r[i], r[(i + 1) % r.len()]);
                 verts.insert(u);
                 cells1.insert(norm_cell(u, v));
-                assert!(edge_face.insert((u, v), f).is_none(), "directed edge used twice");
+                assert!(
+                    edge_face.insert((u, v), f).is_none(),
+                    "directed edge used twice"
+                );
                 fe.push(((u.0 as f64, u.1 as f64), (v.0 as f64, v.1 as f64)));
             }
             face_edges.push(fe);
         }
-        let cx = Complex { name: name.into(), faces, wit, verts, cells1, face_edges, edge_face };
+        let cx = Complex {
+            name: name.into(),
+            faces,
+            wit,
+            verts,
+            cells1,
+            face_edges,
+            edge_face,
+        };
         // self check: every witness lies in its own face only and is clear of all 1-cells
         for f in 0..cx.faces.len() {
             for g in 0..cx.faces.len() {
-                assert_eq!(parity(&cx.face_edges[g], cx.wit[f]), f == g, "witness/face mismatch");
+                assert_eq!(
+                    parity(&cx.face_edges[g], cx.wit[f]),
+                    f == g,
+                    "witness/face mismatch"
+                );
             }
             for fe in &cx.face_edges {
                 for &e in fe {
-                    assert!(dist_pt_seg(cx.wit[f], e) >= 0.15, "witness too close to an edge");
+                    assert!(
+                        dist_pt_seg(cx.wit[f], e) >= 0.15,
+                        "witness too close to an edge"
+                    );
                 }
             }
         }
@@ -129,7 +150,8 @@ impl Complex {
         let mut faces = vec![];
         for y in 0..h {
             for x in 0..w {
-                let (x0, y0, x1, y1, cx, cy) = (2 * x, 2 * y, 2 * x + 2, 2 * y + 2, 2 * x + 1, 2 * y + 1);
+                let (x0, y0, x1, y1, cx, cy) =
+                    (2 * x, 2 * y, 2 * x + 2, 2 * y + 2, 2 * x + 1, 2 * y + 1);
                 faces.push(vec![(x0, y0), (x1, y0), (cx, cy)]);
                 faces.push(vec![(x1, y0), (x1, y1), (cx, cy)]);
                 faces.push(vec![(x1, y1), (x0, y1), (cx, cy)]);
@@ -287,7 +309,11 @@ impl Complex {
                     let mut s = ring.clone();
                     s.sort();
                     s.dedup();
-                    assert!(s.len() == ring.len(), "generator: ring not simple: {:?}", ring);
+                    assert!(
+                        s.len() == ring.len(),
+                        "generator: ring not simple: {:?}",
+                        ring
+                    );
                 }
                 if area2(&ring) > 0 {
                     assert!(ext.is_none(), "generator: two exteriors");
@@ -459,26 +485,43 @@ impl Family {
         for k in 0..self.cx.noperands() {
             for mp in [&self.m[k as usize], &self.u[k as usize]] {
                 let (mm, ov, eo) = self.cx.mask_of(mp);
-                assert!(mm == k && !ov && !eo, "generator: operand {k} of {} reads back wrong", self.cx.name);
+                assert!(
+                    mm == k && !ov && !eo,
+                    "generator: operand {k} of {} reads back wrong",
+                    self.cx.name
+                );
                 for p in &mp.0 {
-                    assert!(ring_area2(p.exterior()) > 0.0, "generator: exterior not ccw");
+                    assert!(
+                        ring_area2(p.exterior()) > 0.0,
+                        "generator: exterior not ccw"
+                    );
                     let em = self.cx.ring_mask(p.exterior());
                     let mut seen = 0u32;
                     for h in p.interiors() {
                         assert!(ring_area2(h) < 0.0, "generator: hole not cw");
                         let hm = self.cx.ring_mask(h);
-                        assert!(hm != 0 && hm & !em == 0 && hm & seen == 0, "generator: bad hole");
+                        assert!(
+                            hm != 0 && hm & !em == 0 && hm & seen == 0,
+                            "generator: bad hole"
+                        );
                         seen |= hm;
                     }
                 }
                 // every 1-cell at most once over all rings
                 let mut cnt: HashMap<(V, V), u32> = HashMap::new();
                 for (a, b) in mp_edges(mp) {
-                    for c in self.cx.decompose(a, b).expect("generator: edge off complex") {
+                    for c in self
+                        .cx
+                        .decompose(a, b)
+                        .expect("generator: edge off complex")
+                    {
                         *cnt.entry(c).or_default() += 1;
                     }
                 }
-                assert!(cnt.values().all(|&c| c == 1), "generator: repeated boundary cell");
+                assert!(
+                    cnt.values().all(|&c| c == 1),
+                    "generator: repeated boundary cell"
+                );
             }
         }
     }
